@@ -80,6 +80,10 @@ fn main() {
         let _ = tracing_subscriber::fmt().with_env_filter(f).with_writer(std::io::stderr).without_time().try_init();
     }
     exec::install_panic_hook();
+    if args[0] == "--probe-governor" {
+        probe::governor_burst();
+        return;
+    }
     if args[0] == "--probe-wrongname" {
         probe::wrong_name_listener();
         return;
